@@ -25,7 +25,8 @@
 (* lengths: arcs in millidegrees of the semi-major axis (s = a * arc), so  *)
 (* that the lattice is meaningful on the unit sphere as well; 170 degrees  *)
 (* of GRS80's axis are 18 924 km (the statement: "up to 19 000 km").       *)
-(* Tolerances: nm = 1e-9 m, frad = 1e-15 rad, frel = 1e-15 relative.       *)
+(* Tolerances: nm = 1e-9 m; nm_a = 1e-9 m x a / 6378137 m (scales with the *)
+(* axis); frad = 1e-15 rad; frel = 1e-15 relative.                         *)
 (***************************************************************************)
 EXTENDS Integers, Sequences, FiniteSets, TLC, Json
 
@@ -163,7 +164,6 @@ EllsFor(id) ==
     CASE id.fam = "table" -> AllTable                                \* exhaustively, in both tiers
       [] id.fam = "shape" -> AllTable \cup SynAll                    \* exhaustively, in both tiers
       [] id.fam = "geod" /\ id.sub = "sphere" -> {e \in LatticeEllps : IsSphere(e)}
-      \* an arc of the equator is a geodesic; on a sphere it is covered by geod.sphere
       [] OTHER -> LatticeEllps
 
 \* ---- accuracy classes ------------------------------------------------------------------------------
@@ -173,28 +173,29 @@ EllsFor(id) ==
 \*   rad12  1e-12 rad       auxiliary latitudes: round trip (and, the statement naming no other number for
 \*                          them: odd, fixed points, agreement with the closed form)
 \* classes chosen by measuring the unchanged tree (>= 100 x the worst case found, never below 1e-11 relative;
-\* the measured worst cases are in DESIGN / the evidence file)
+\* every run writes the worst cases it measured into evidence/C06.json, coverage.tolerances)
 \*   pub9   1e-9 relative   published constants (how precisely a constant is published, not how it is stored)
 \*   rel11  1e-11 relative  defining identities of shape parameters, curvatures, the ellipsoid equation
 \*   strict 0               strict monotonicity: f(lat_i) < f(lat_j) for neighbours lat_i < lat_j of the lattice
-\*   geo_s  distances of geodesics, in nm of a 6.4e6 m axis (scaled by a / 6378137 m)
-\*   geo_x  positions / azimuths of geodesics on the ground, same unit
-\*   mer_d  meridian distance against the defining integral; mer_i: latitude -> distance -> latitude
-Classes == {"um1", "cm1", "rad12", "pub9", "rel11", "strict", "geo_s", "mer_d", "mer_i", "iso"}
-Tol(cls) == CASE cls = "um1"    -> [tol |-> 1000,     unit |-> "nm"]
-              [] cls = "cm1"    -> [tol |-> 10000000, unit |-> "nm"]
-              [] cls = "rad12"  -> [tol |-> 1000,     unit |-> "frad"]
-              [] cls = "pub9"   -> [tol |-> 1000000,  unit |-> "frel"]
-              [] cls = "rel11"  -> [tol |-> 10000,    unit |-> "frel"]
-              [] cls = "strict" -> [tol |-> 0,        unit |-> "order"]
-              \* Vincenty's series (1975/76) are truncated after the third order of the flattening: 0.1 mm on
-              \* GRS80, growing with f^3; measured worst case 0.3 mm at f = 1/150; class: 5 cm of a 6.4e6 m axis
-              [] cls = "geo_s"  -> [tol |-> 50000000, unit |-> "nm_a"]
-              \* Bowring's (1983) meridian series is truncated after n^3: measured worst case 0.6 mm at f = 1/150
-              [] cls = "mer_d"  -> [tol |-> 100000000, unit |-> "nm_a"]
-              [] cls = "mer_i"  -> [tol |-> 100000000, unit |-> "nm_a"]
-              \* isometric latitude: dimensionless, unbounded; 1e-11 relative + 1e-12 absolute
-              [] cls = "iso"    -> [tol |-> 10000,    unit |-> "frel"]
+\*   geo_c  1 mm of a 6 378 137 m axis (scaled with a): direct / inverse geodesic problems against each other, end
+\*          points exchanged, great circles on spheres.  Measured worst case 6.4 micrometres (the stopping
+\*          criterion of the iterations, 1e-12 rad) for arcs up to 170 degrees, f up to 1/150.
+\*   geo_a  1 cm of the axis: geodesics against the defining integral of the meridian arc and a * dlon.  Vincenty's
+\*          series are truncated: measured worst case 0.07 mm at f = 1/150 (0.014 mm on mprts, f = 1/191).
+\*   mer    10 cm of the axis: Bowring's (1983) meridian distance and its inverse, against the defining integral
+\*          and against each other; measured worst case 0.9 mm at f = 1/150 (0.3 mm on mprts).
+\*   iso    isometric latitude (dimensionless, unbounded): 1e-11 relative, 1 being the smallest scale
+Classes == {"um1", "cm1", "rad12", "pub9", "rel11", "strict", "geo_c", "geo_a", "mer", "iso"}
+Tol(cls) == CASE cls = "um1"    -> [tol |-> 1000,      unit |-> "nm"]
+              [] cls = "cm1"    -> [tol |-> 10000000,  unit |-> "nm"]
+              [] cls = "rad12"  -> [tol |-> 1000,      unit |-> "frad"]
+              [] cls = "pub9"   -> [tol |-> 1000000,   unit |-> "frel"]
+              [] cls = "rel11"  -> [tol |-> 10000,     unit |-> "frel"]
+              [] cls = "strict" -> [tol |-> 0,         unit |-> "order"]
+              [] cls = "geo_c"  -> [tol |-> 1000000,   unit |-> "nm_a"]
+              [] cls = "geo_a"  -> [tol |-> 10000000,  unit |-> "nm_a"]
+              [] cls = "mer"    -> [tol |-> 100000000, unit |-> "nm_a"]
+              [] cls = "iso"    -> [tol |-> 10000,     unit |-> "frel"]
 
 Class(id) ==
     CASE id.fam = "table" -> "pub9"
@@ -207,15 +208,20 @@ Class(id) ==
       [] id.fam = "lat" /\ id.kind = "isometric" -> "iso"
       [] id.fam = "lat" -> "rad12"
       [] id.fam = "geod" /\ id.sub = "op" -> "rel11"
-      [] id.fam = "geod" -> "geo_s"
-      [] id.fam = "mer" /\ id.sub = "def" -> "mer_d"
-      [] id.fam = "mer" /\ id.sub = "inverse" -> "mer_i"
+      [] id.fam = "geod" /\ id.sub \in {"meridian", "equator"} -> "geo_a"
+      [] id.fam = "geod" -> "geo_c"
+      [] id.fam = "mer" -> "mer"
 
 \* ---- lattices -------------------------------------------------------------------------------------
-\* latitudes (millidegrees): the poles, the equator, 0.001 degrees from either, high latitudes
-LatsPos == IF Q THEN {0, 1, 30000, 45000, 60000, 85000, 89900, 89999, 90000}
-           ELSE {0, 1, 1000, 5000, 15000, 30000, 45000, 60000, 70000, 80000, 85000, 89000, 89900, 89999, 90000}
-Lats == LatsPos \cup {0 - x : x \in LatsPos}
+\* latitudes (millidegrees): the poles, the equator, 0.001 degrees from either, high latitudes;
+\* thorough: every third degree besides (cart, curvatures, meridians) / every degree (latitudes)
+Specials == {0, 1, 1000, 5000, 85000, 89000, 89900, 89999, 90000}
+LatsPos == IF Q THEN {0, 1, 15000, 30000, 45000, 60000, 75000, 85000, 89900, 89999, 90000}
+           ELSE Specials \cup {3000 * k : k \in 0..30}
+FineLatsPos == IF Q THEN Specials \cup {5000 * k : k \in 0..18} ELSE Specials \cup {1000 * k : k \in 0..90}
+Mirror(S) == S \cup {0 - x : x \in S}
+Lats == Mirror(LatsPos)
+FineLats == Mirror(FineLatsPos)
 Lons == IF Q THEN {-180000, -120000, 0, 12000, 179999}
         ELSE {-180000, -120000, -45000, -1, 0, 12000, 90000, 135000, 179999}
 \* heights: "-10 to 100 km"
@@ -229,20 +235,25 @@ Neighbours(S) == {p \in S \X S : p[1] < p[2] /\ ~ \E z \in S : p[1] < z /\ z < p
 \* geodesics, direct problem: start latitude, azimuth, arc (all millidegrees), start longitude.
 \* Azimuths are undefined at a pole: start latitudes end at 89 degrees.  Arcs end at 170 degrees: the
 \* documented near-antipodal zone of non-convergence of Vincenty's inverse lies beyond.
-GLats == IF Q THEN {-60000, 0, 45000, 89000} ELSE {-89000, -60000, -30000, -1000, 0, 1000, 30000, 45000, 60000, 80000, 89000}
-Azs   == IF Q THEN {0, 45000, 90000, 200000} ELSE {0, 1000, 45000, 90000, 135000, 180000, 200000, 270000, 359000}
-Arcs  == IF Q THEN {1, 1000, 45000, 170000} ELSE {1, 10, 1000, 10000, 45000, 90000, 135000, 170000}
+GLats == IF Q THEN {-89000, -60000, -1000, 0, 30000, 45000, 89000} ELSE {-89000, -60000, -30000, -1000, 0, 1000, 30000, 45000, 60000, 80000, 89000}
+Azs   == IF Q THEN {0, 1000, 45000, 90000, 135000, 180000, 200000, 270000, 359000}
+         ELSE {0, 1000, 30000, 45000, 60000, 89000, 90000, 91000, 120000, 135000, 150000, 179000, 180000, 200000, 225000, 270000, 300000, 330000, 359000}
+\* arc 0: the two problems degenerate (no distance, no direction)
+Arcs  == IF Q THEN {0, 1, 1000, 45000, 90000, 135000, 170000} ELSE {0, 1, 10, 1000, 10000, 30000, 45000, 60000, 90000, 120000, 135000, 150000, 160000, 170000}
 GLons == IF Q THEN {12000} ELSE {12000, -170000}
 GeodPts == {<<la, az, ar, lo>> : la \in GLats, az \in Azs, ar \in Arcs, lo \in GLons}
-\* two latitudes on one meridian
+\* two latitudes on one meridian; across = 0: same longitude, the arc between them; across = 1: the second point lies
+\* on the opposite meridian (lon + 180 degrees) and the geodesic runs over the nearer pole - the separation
+\* 180 - |lat1 + lat2| degrees must stay outside the near-antipodal zone as well
 MLats == IF Q THEN {-90000, -45000, 0, 30000, 60000, 90000} ELSE {-90000, -80000, -60000, -30000, -5000, 0, 1, 15000, 45000, 75000, 89000, 90000}
 MeridianPts == {<<p[1], p[2], lo, 0>> : p \in {q \in MLats \X MLats : q[1] # q[2] /\ Abs(q[2] - q[1]) <= 170000}, lo \in {12000}}
+          \cup {<<p[1], p[2], lo, 1>> : p \in {q \in MLats \X MLats : Abs(q[1]) < 90000 /\ Abs(q[2]) < 90000 /\ Abs(q[1] + q[2]) >= 10000}, lo \in {12000}}
 \* two longitudes on the equator
 ELons == IF Q THEN {-170000, -10000, 0, 12000, 150000} ELSE {-179000, -170000, -90000, -10000, -1, 0, 12000, 90000, 150000, 179000}
 EquatorPts == {<<p[1], p[2], 0, 0>> : p \in {q \in ELons \X ELons : q[1] # q[2] /\ Abs(q[2] - q[1]) <= 170000}}
 
 One == {<<0, 0, 0, 0>>}
-LatsOf(id) == IF id.kind = "isometric" THEN Lats \ {-90000, 90000} ELSE Lats
+LatsOf(id) == IF id.kind = "isometric" THEN FineLats \ {-90000, 90000} ELSE FineLats
 
 Pts(id, e) ==
     CASE id.fam \in {"table", "shape"} -> One
@@ -266,8 +277,11 @@ InDomain(id, e, p) ==
       [] id.fam = "cart" -> Abs(p[1]) <= 180000 /\ Abs(p[2]) <= 90000 /\ p[3] >= -10000 /\ p[3] <= 100000
                             /\ (id.sub = "surface" => p[3] = 0) /\ (Cls(e) = "unit" => p[3] = 0)
       [] id.fam = "geod" /\ id.sub \in {"consistent", "symmetric", "sphere", "op"} ->
-                            Abs(p[1]) <= 89000 /\ p[2] >= 0 /\ p[2] < 360000 /\ p[3] > 0 /\ p[3] <= 170000 /\ Abs(p[4]) <= 180000
-      [] id.fam = "geod" /\ id.sub = "meridian" -> Abs(p[1]) <= 90000 /\ Abs(p[2]) <= 90000 /\ p[1] # p[2] /\ Abs(p[2] - p[1]) <= 170000
+                            Abs(p[1]) <= 89000 /\ p[2] >= 0 /\ p[2] < 360000 /\ p[3] >= 0 /\ p[3] <= 170000 /\ Abs(p[4]) <= 180000
+      [] id.fam = "geod" /\ id.sub = "meridian" ->
+                            /\ Abs(p[1]) <= 90000 /\ Abs(p[2]) <= 90000 /\ p[4] \in {0, 1}
+                            /\ (p[4] = 0 => p[1] # p[2] /\ Abs(p[2] - p[1]) <= 170000)
+                            /\ (p[4] = 1 => 180000 - Abs(p[1] + p[2]) <= 170000 /\ 180000 - Abs(p[1] + p[2]) > 0)
       [] id.fam = "geod" /\ id.sub = "equator" -> Abs(p[1]) <= 180000 /\ Abs(p[2]) <= 180000 /\ p[1] # p[2] /\ Abs(p[2] - p[1]) <= 170000
       [] id.fam = "lat" /\ id.sub = "mono" -> Abs(p[1]) <= 90000 /\ Abs(p[2]) <= 90000 /\ p[1] < p[2]
       [] id.fam = "lat" /\ id.kind = "isometric" -> Abs(p[1]) < 90000
@@ -303,11 +317,13 @@ SpecialOK(id, e) ==
       [] id.fam = "geod" /\ id.sub \in {"consistent", "symmetric", "sphere", "op"} ->
               \* a start on the equator, meridional and equatorial azimuths, the longest arc of the statement
               /\ Has(S, LAMBDA p : p[1] = 0 /\ p[2] = 90000) /\ Has(S, LAMBDA p : p[2] = 0) /\ Has(S, LAMBDA p : p[3] = 170000)
-              /\ Has(S, LAMBDA p : p[1] < 0) /\ Has(S, LAMBDA p : p[1] >= 89000)
+              /\ Has(S, LAMBDA p : p[1] < 0) /\ Has(S, LAMBDA p : p[1] >= 89000) /\ Has(S, LAMBDA p : p[3] = 0)
       [] id.fam = "geod" /\ id.sub = "meridian" ->
               \* from a pole, to a pole, across the equator, both directions
               /\ Has(S, LAMBDA p : p[1] = -90000) /\ Has(S, LAMBDA p : p[2] = 90000) /\ Has(S, LAMBDA p : p[1] < 0 /\ p[2] > 0)
               /\ Has(S, LAMBDA p : p[1] > p[2]) /\ Has(S, LAMBDA p : p[1] = 0)
+              \* over the north pole and over the south pole
+              /\ Has(S, LAMBDA p : p[4] = 1 /\ p[1] + p[2] > 0) /\ Has(S, LAMBDA p : p[4] = 1 /\ p[1] + p[2] < 0)
       [] id.fam = "geod" /\ id.sub = "equator" ->
               /\ Has(S, LAMBDA p : p[1] < p[2]) /\ Has(S, LAMBDA p : p[1] > p[2]) /\ Has(S, LAMBDA p : Abs(p[2] - p[1]) = 170000)
       [] OTHER -> S # {}
